@@ -10,7 +10,7 @@
    container holds.  [Inv k] — the container is consistent: unique names, sorted slice = the
    entities in descending priority order, index map = positions in the sorted slice. *)
 From Coq Require Import String List ZArith Bool Permutation.
-From GV Require Import Rules.KcModel Rules.KcProofs Pool.Model Pool.Proofs.
+From GV Require Import Rules.KcModel Rules.KcCheck Rules.KcProofs Pool.Model Pool.Proofs Engine.IR Engine.Hand Engine.Spec Pool.Compose Pool.ComposeFacts Pool.ComposeModelFacts.
 Import ListNotations.
 
 (* 0. the invariant: master and instances consistent, every instance holds the master's rules *)
@@ -109,3 +109,55 @@ Theorem C16_example :
   q_number (mstep idsh s MClear) = 0.
 Proof. exact mgmt_example. Qed.
 Print Assumptions C16_example.
+
+(* ---------- the execution MODEL in use, made observable (Pool/Compose.v; proofs in Pool/ComposeModelFacts.v) ----------
+   "the executions on every engine instance agree with the rule set AND MODEL that the sequence denotes": with a rule that
+   always fails in the set, what an execution hands back depends on the model.  [expected_em_result fails s] is the result map
+   Engine/Spec.v assigns to the entry point behind the *SpecifiedEM wrappers for the model of pool state s, on the container
+   of s; the correspondence run compares it (Pool/Check.v code 29) with an execution forced onto every instance after
+   every management operation. *)
+
+Theorem C16_sort_model_returns_the_non_failing_rules : forall fails s x,
+  m_clear s = false -> m_model s = 1 -> Inv (m_master s) -> sorted (m_master s) <> [] ->
+  (In x (expected_em_result fails s) <->
+   exists r, In r (sorted (m_master s)) /\ fails (rname r) = false /\ x = (rname r, rbody r)).
+Proof. exact em_sort_model_returns_the_non_failing_rules. Qed.
+Print Assumptions C16_sort_model_returns_the_non_failing_rules.
+
+Theorem C16_concurrent_model_returns_the_non_failing_rules : forall fails s x,
+  m_clear s = false -> m_model s = 2 -> Inv (m_master s) -> sorted (m_master s) <> [] ->
+  (In x (expected_em_result fails s) <->
+   exists r, In r (sorted (m_master s)) /\ fails (rname r) = false /\ x = (rname r, rbody r)).
+Proof. exact em_concurrent_model_returns_the_non_failing_rules. Qed.
+Print Assumptions C16_concurrent_model_returns_the_non_failing_rules.
+
+Theorem C16_mix_model_top_failure_returns_nothing : forall fails s r rest,
+  m_clear s = false -> m_model s = 3 -> sorted (m_master s) = r :: rest -> fails (rname r) = true ->
+  expected_em_result fails s = [].
+Proof. exact em_mix_model_top_failure_returns_nothing. Qed.
+Print Assumptions C16_mix_model_top_failure_returns_nothing.
+
+(* the check can tell the models apart: same rule set, top rule fails, another does not *)
+Theorem C16_sort_and_mix_models_are_told_apart : forall fails s1 s3 r rest r',
+  m_master s1 = m_master s3 -> m_clear s1 = false -> m_clear s3 = false -> m_model s1 = 1 -> m_model s3 = 3 ->
+  Inv (m_master s1) -> sorted (m_master s1) = r :: rest -> fails (rname r) = true -> In r' rest -> fails (rname r') = false ->
+  expected_em_result fails s1 <> expected_em_result fails s3.
+Proof. exact em_sort_and_mix_differ. Qed.
+Print Assumptions C16_sort_and_mix_models_are_told_apart.
+
+Theorem C16_cleared_pool_returns_nothing_under_every_model : forall fails s, m_clear s = true -> expected_em_result fails s = [].
+Proof. exact em_cleared_returns_nothing. Qed.
+Print Assumptions C16_cleared_pool_returns_nothing_under_every_model.
+
+(* non-vacuity: pd(9, fails) pa(5) pb(1): sort and concurrent return {pa, pb}, mix nothing, inverse-mix {pa} (pb, the lowest
+   rule, does not run because pd failed) *)
+Theorem C16_model_example :
+  let rs := [mkRule "pd" 9 "v" 7; mkRule "pa" 5 "v" 7; mkRule "pb" 1 "v" 7] in
+  let st m := mstep idshuffle (mgmt_init 2 1 rs idshuffle) (MSetModel m) in
+  let fails n := String.eqb n "pd" in
+  expected_em_result fails (st 1) = [("pa"%string, 7%Z); ("pb"%string, 7%Z)] /\
+  expected_em_result fails (st 2) = [("pa"%string, 7%Z); ("pb"%string, 7%Z)] /\
+  expected_em_result fails (st 3) = [] /\
+  expected_em_result fails (st 4) = [("pa"%string, 7%Z)].
+Proof. vm_compute. repeat split. Qed.
+Print Assumptions C16_model_example.
